@@ -104,6 +104,7 @@ Applicable(c, n, s) ==
          /\ \/ n \in CoreLensOf(c) /\ s \in AllShapes
             \/ s \in CoreShapes
             \/ c[1] = "adaptive" /\ n \in SamplerLens /\ s \in (SamplerShapes \cup OrderShapes \cup {<<"fewuniq", 3>>, <<"cluster", 49>>})
+            \/ Thorough /\ n \in BoundaryLens /\ n <= 2289 /\ s \in AllShapes /\ ~(s \in MinedShapes)
             \/ c[1] \in {"pfor", "adaptive"} /\ n \in {127, 256, 2288} /\ s \in PatchShapes
             \/ c[1] \in {"rle", "rle_hdr", "dict", "adaptive"} /\ n \in {241, 2288} /\ s \in RepeatShapes
             \/ c[1] \in HeaderCodecs /\ n \in {2, 17, 241} /\ s \in MinAtShapes
